@@ -3,6 +3,7 @@
 use hxlib::*;
 
 mod chain;
+mod events;
 mod gen;
 mod mintable;
 mod oracle;
@@ -10,7 +11,7 @@ mod scenarios;
 
 fn gen_cases(prop: &str, rng: &mut Rng, tier: &str, outdir: &str) -> Vec<Line> {
   let thorough = tier == "thorough";
-  let mut v = scenarios::all();
+  let mut v = if prop == "C37" { scenarios::events() } else { scenarios::all() };
   let mut feats = gen::Features::new();
   // (profile, quick count, thorough count)
   let plan: Vec<(gen::Profile, usize, usize)> = match prop {
@@ -20,6 +21,7 @@ fn gen_cases(prop: &str, rng: &mut Rng, tier: &str, outdir: &str) -> Vec<Line> {
       mintable::gen(rng, tier, &mut v);
       vec![(gen::P_MINT, 60, 300), (gen::P_SUPPLY, 10, 50)]
     }
+    "C37" => vec![(gen::P_EVENTS, 90, 450)],
     "C11" => vec![(gen::P_ETCH, 85, 550), (gen::P_SUPPLY, 15, 100)],
     _ => vec![],
   };
@@ -49,6 +51,32 @@ fn run_case(prop: &str, case: &Line) -> Outcome {
   let mut c = Cur::new(case);
   match c.u8() {
     0 => mintable::run(&mut c),
+    2 => guarded("events", || {
+      let (ch, same) = chain::rebuild(case);
+      let mut problems = Vec::new();
+      let obs = events::obs(&ch, &mut problems);
+      problems.extend(events::oracle(&ch));
+      let oracle = if !same {
+        Err("[case-inconsistent] the model-facing part of the line is not what the rebuilt chain says".to_string())
+      } else if problems.is_empty() {
+        Ok(())
+      } else {
+        Err(format!("{} replay failure(s): {}", problems.len(), problems.iter().take(3).cloned().collect::<Vec<_>>().join(" || ")))
+      };
+      let n = |f: &dyn Fn(&ord::index::event::Event) -> bool| ch.block_events.iter().flatten().any(|e| f(e));
+      use ord::index::event::Event as E;
+      let cat = format!(
+        "events{}{}{}{}{}{}",
+        if n(&|e| matches!(e, E::RuneEtched { .. })) { "/etched" } else { "" },
+        if n(&|e| matches!(e, E::RuneMinted { .. })) { "/minted" } else { "" },
+        if n(&|e| matches!(e, E::RuneBurned { .. })) { "/burned" } else { "" },
+        if n(&|e| matches!(e, E::RuneTransferred { .. })) { "/transferred" } else { "" },
+        if n(&|e| matches!(e, E::InscriptionCreated { .. })) { "/inscribed" } else { "" },
+        if n(&|e| matches!(e, E::InscriptionTransferred { .. })) { "/moved" } else { "" }
+      );
+      let cat = if cat == "events" { "trivial/events/none".to_string() } else { cat };
+      Outcome { obs, oracle, cat }
+    }),
     _ => guarded("chain", || {
       let (ch, same) = chain::rebuild(case);
       let obs = ch.obs();
@@ -96,7 +124,7 @@ fn main() {
   let args = parse_args();
   let prop = args.prop.clone();
   match prop.as_str() {
-    "C08" | "C09" | "C10" | "C11" => {
+    "C08" | "C09" | "C10" | "C11" | "C37" => {
       let outdir = args.outdir.clone();
       let p2 = prop.clone();
       drive(&args, move |rng, tier| gen_cases(&p2, rng, tier, &outdir), move |case| run_case(&prop, case))
